@@ -10,7 +10,7 @@
 
 IRunner* C01_CAT(c01_make_, C01_KIND)(int l, int i, bool bin, int mode0, int mode1) {
 #define SL(LL, II) if (l == LL && i == II) return new Runner<C01_KIND, LL, II>(mode0, mode1, bin);
-    SL(4, 4) SL(5, 5) SL(6, 6) SL(7, 7) SL(8, 8) SL(16, 16) SL(4, 7) SL(7, 4) SL(5, 16) SL(16, 5)
+    SL(4, 4) SL(4, 5) SL(5, 4) SL(5, 5) SL(6, 6) SL(7, 7) SL(8, 8) SL(16, 16) SL(4, 7) SL(7, 4) SL(5, 16) SL(16, 5) SL(16, 4) SL(64, 21)
 #undef SL
     return nullptr;
 }
